@@ -97,6 +97,8 @@ def script_events(t, modname='vtw.tests', nth=1):
         return [('F', base)] if s == 'fail' else []
     mn = t.get('mn', t['n'])
     base = 'test_%s (%s.T_%s.test_%s)' % (mn, modname, t.get('shcls') or t['n'], mn)
+    if 'strv' in t:
+        base = t['strv']
     if s in ('pass', 'xfail', 'leave_replaced', 'warnfilter', 'swap_pass', 'settrace', 'chdir', 'rmcwd'):
         return []
     if s == 'sub_skip':
@@ -136,6 +138,8 @@ class Truth:
     def __init__(self, spec, res):
         self.sv = sv = monitors.SpecView(spec)
         mod = sv.mod
+        CUSTOM_NAMES.clear()
+        CUSTOM_NAMES.update(t['strv'] for t in spec['tests'] if 'strv' in t)
         self.runs = collections.Counter()        # test id -> executions
         self.run_vpid = collections.defaultdict(set)
         self.fail = collections.Counter()        # name -> n
@@ -203,23 +207,6 @@ def asciify(name):
     return re.sub(r'[^\x00-\x7f]+', '?', name)
 
 
-def split_names(names):
-    """runner failure/error names -> (test names Counter, layer entries,
-    subprocess entries, other)"""
-    tests = collections.Counter()
-    layers, subs, other = [], [], []
-    for n in names:
-        if n.startswith('Layer: '):
-            layers.append(n)
-        elif n.startswith('subprocess for ') or n.startswith('subprocess failed for '):
-            subs.append(n)
-        elif n.startswith('test_') or n.startswith('/vtw/test_'):
-            tests[n] += 1
-        else:
-            other.append(n)
-    return tests, layers, subs, other
-
-
 def placements(nslots, menu, maxk):
     """All ways to put <=maxk non-pass scripts from menu into slots."""
     for k in range(maxk + 1):
@@ -266,16 +253,29 @@ def _triple(line):
         return None
 
 
+def _real_header(lines):
+    """Index of the header of the report the child wrote last: the report is
+    header + nfail + nerr name lines reaching exactly to the end.  A name
+    line may itself read like such a header (a test whose str() is "7 0 0",
+    see CUSTOM_NAMES): it is not the header when an earlier line qualifies."""
+    cands = []
+    for i, ln in enumerate(lines):
+        t = _triple(ln)
+        if t is not None and min(t) >= 0 and i + 1 + t[1] + t[2] == len(lines):
+            cands.append(i)
+    if not cands:
+        return None
+    k = len(cands) - 1
+    while k > 0 and lines[cands[k]].strip().decode('utf-8', 'replace') in CUSTOM_NAMES:
+        k -= 1
+    return cands[k]
+
+
 def spoof_lines(stderr_bytes):
     """The lines of a child's stderr that parse as three integers and come
     before the header of the report the child wrote last."""
     lines = stderr_bytes.splitlines()
-    real = None
-    for i in range(len(lines) - 1, -1, -1):
-        t = _triple(lines[i])
-        if t is not None and i + 1 + t[1] + t[2] == len(lines):
-            real = i
-            break
+    real = _real_header(lines)
     if real is None:
         return []
     return [ln.strip() for ln in lines[:real] if _triple(ln) is not None]
@@ -283,20 +283,27 @@ def spoof_lines(stderr_bytes):
 
 def spoofed_header(stderr_bytes):
     """True when the first line of a child's stderr that parses as three
-    integers is *not* the header of the report the child wrote last (the
-    report = header + nfail + nerr lines reaching exactly to the end)."""
-    lines = stderr_bytes.splitlines()
-    first = None
-    for i, ln in enumerate(lines):
-        if _triple(ln) is not None:
-            first = i
-            break
-    if first is None:
-        return False
-    real = None
-    for i in range(len(lines) - 1, -1, -1):
-        t = _triple(lines[i])
-        if t is not None and i + 1 + t[1] + t[2] == len(lines):
-            real = i
-            break
-    return real is not None and real != first
+    integers is *not* the header of the report the child wrote last."""
+    return bool(spoof_lines(stderr_bytes))
+
+
+CUSTOM_NAMES = set()       # str() values of the current world's 'strv' tests
+
+
+def split_names(names):
+    """runner failure/error names -> (test names Counter, layer entries,
+    subprocess entries, other)"""
+    tests = collections.Counter()
+    layers, subs, other = [], [], []
+    for n in names:
+        if n.startswith('Layer: '):
+            layers.append(n)
+        elif n.startswith('subprocess for ') or n.startswith('subprocess failed for '):
+            subs.append(n)
+        elif n.startswith('test_') or n.startswith('/vtw/test_') or n in CUSTOM_NAMES or n.split(' (i=')[0] in CUSTOM_NAMES:
+            tests[n] += 1
+        else:
+            other.append(n)
+    return tests, layers, subs, other
+
+
